@@ -10,7 +10,7 @@ package writer
 //@ ghostdecl bulkItems int
 
 //@ func HandleBulkBody
-//@   props C15 C13
+//@   props C15 C13 C19
 //@   ghostinit ghost(0, "bulkFailed") == 0 && ghost(0, "bulkItems") == 0
 //@   loop 1:
 //@     invariant overallError == (ghost(0, "bulkFailed") == 1)
@@ -33,6 +33,12 @@ package writer
 // a stream id embeds the organisation; a hit is used without looking at the
 // organisation.  So the cache handed to ProcessIndexRequestPle is one this very
 // request created (it can only hold ids computed for this request's org).
+// C19: an item is parsed for storing only under an index name that passed
+// the validator (it becomes a directory name); other items fail on their own.
+//@   site call writer.GetNewPLE #1:
+//@     assert [an-item-is-stored-only-under-a-validated-index-name] uf("safeName", bool, indexName) && arg2 == indexName
+//@   site call AddAndGetRealIndexName #1:
+//@     assert [a-kibana-item-is-stored-only-under-a-validated-index-name] uf("safeName", bool, indexName)
 //@   site call ProcessIndexRequestPle #1:
 //@     assert [stream-id-cache-is-private-to-this-request] fresh(idxToStreamIdCache) && arg4 == myid
 //@ end
@@ -65,11 +71,13 @@ package writer
 //    when the event carries no time.
 //@ ghostdecl pleSpan int
 //@ func ProcessIndexRequestPle
-//@   props C15 C16
+//@   props C15 C16 C19
 //@   mode int
 //@   assumecalleerequires
 //@   ghostinit ghost(0, "pleSpan") == -1
-//@   site call utils.TeeErrorf #1:
+//@   site call AddAndGetRealIndexName #1:
+//@     assert [only-a-validated-index-name-reaches-the-store] uf("safeName", bool, indexNameIn)
+//@   site call utils.TeeErrorf #2:
 //@     assert [batch-rejected-only-for-an-event-tagged-with-another-name] ple.indexName != indexNameIn
 //@   site callret strings.HasPrefix #1:
 //@     assert [span-index-decided-from-the-resolved-name] arg0 == indexNameConverted && arg1 == "jaeger-"
